@@ -539,7 +539,7 @@ def run_jobs(jobs, tmp):
 
 def main():
     t0 = time.time()
-    tmp = tempfile.mkdtemp(prefix='pytough-', dir='/var/tmp')
+    tmp = tempfile.mkdtemp(prefix='pytough-', dir=os.environ.get('PYTOUGH_SCRATCH', '/var/tmp'))
     try:
         files = listing_files()
         jobs = []
